@@ -10,6 +10,8 @@ def rnd_pat():
     if r < 0.25: p = "^" + p
     elif r < 0.4: p = "^(?i)" + p
     elif r < 0.5: p = "(?i)" + p
+    elif r < 0.6: p = "^(?is)" + p
+    elif r < 0.68: p = random.choice(["(?s)","(?si)","^(?s)","(?is)^","(?ss)","(?x)"]) + p
     if random.random() < 0.3: p = p + "$"
     return p
 def structured():
@@ -25,6 +27,8 @@ def structured():
     if r < 0.25: p = "^" + p
     elif r < 0.4: p = "^(?i)" + p
     elif r < 0.5: p = "(?i)" + p
+    elif r < 0.6: p = "^(?is)" + p
+    elif r < 0.68: p = random.choice(["(?s)","(?si)","^(?s)","(?is)^","(?ss)","(?x)"]) + p
     if random.random() < 0.3: p = p + "$"
     return p
 cases = []
